@@ -192,11 +192,13 @@ MaxFrame == 268435456   \* 256 MiB, the protocol's frame size limit
 \* big: the frame is one of the few on which the header may announce a body of megabytes that
 \* never comes (the driver allocates the announced size before reading; the kind of body is
 \* irrelevant to that and zeroing 256 MiB per case is slow)
-LenVals(fd, big) ==
+\* huge: 2^31-1 in a COUNT field ends the child process wherever the driver allocates by it; every
+\* count field of every base frame gets 2^21 (measured, no death), 2^31-1 those of the boundary subset
+LenVals(fd, big, huge) ==
   LET n == fd.n IN
   (CASE fd.w = 4 -> IF fd.f = "header.length"
                     THEN {-1, 0, n - 1, n + 1, n + 100, 32768, MaxFrame + 1, 2147483647} \cup (IF big THEN {2097152, MaxFrame} ELSE {})
-                    ELSE {-1, 0, n - 1, n + 1, 32768, 2097152, 2147483647}
+                    ELSE {-1, 0, n - 1, n + 1, 32768, 2097152} \cup (IF huge \/ fd.k = "len" THEN {2147483647} ELSE {})
      [] fd.w = 2 -> {65535, 0, n - 1, n + 1, 32768, 32767} \cap (0 .. 65535)
      [] fd.w = 1 -> {0, n - 1, n + 1, 4, 16, 255} \cap (0 .. 255)) \ {n}
 CodeVals(fd, thorough) ==
@@ -215,7 +217,7 @@ FlagVals(fd) ==
 \* m = [mk, f, off, val]: the label of a case
 FieldMuts(s, thorough) ==
   UNION {LET fd == s.fields[i] IN
-         CASE fd.k \in {"len", "cnt"} -> {[mk |-> fd.k, f |-> fd.f, off |-> fd.off, w |-> fd.w, val |-> x] : x \in LenVals(fd, s.kind \in {"READY", "SUPPORTED"})}
+         CASE fd.k \in {"len", "cnt"} -> {[mk |-> fd.k, f |-> fd.f, off |-> fd.off, w |-> fd.w, val |-> x] : x \in LenVals(fd, s.kind \in {"READY", "SUPPORTED"}, s.stream)}
            [] fd.k = "code" -> {[mk |-> "code", f |-> fd.f, off |-> fd.off, w |-> fd.w, val |-> x] : x \in CodeVals(fd, thorough)}
            [] fd.k = "flags" -> {[mk |-> "flags", f |-> fd.f, off |-> fd.off, w |-> fd.w, val |-> x] : x \in FlagVals(fd)}
            [] fd.k = "name" -> {[mk |-> "name", f |-> fd.f, off |-> fd.off, w |-> 1, val |-> 88]}
